@@ -64,8 +64,9 @@ def compose(child_blocks, child_strand, levels, i, upto):
     return pos, strand
 
 
-def lift_fn(kc, sc, shapes, upto, idiom):
-    """shapes: list of (k, strand) for each placement level"""
+def lift_fn(kc, sc, shapes, upto, idiom, ordered=True):
+    """shapes: list of (k, strand) for each placement level. ordered=False (overlapping placements): the library keeps blocks sorted by start, so bases
+    the placement duplicates come back in block order, not in 5'->3' order (the F12 normalisation): only length and coverage are claimed"""
 
     def fn(**kw):
         cb = layout_blocks(kc, kw, "c")
@@ -82,8 +83,8 @@ def lift_fn(kc, sc, shapes, upto, idiom):
         lb = blocks_of(lifted)
         exp_pos, exp_strand = compose(cb, sc, levels, i, upto)
         n = total_len(cb)
-        conds = [lifted.strand is exp_strand, len(lifted) == n,
-                 OR(NOT(AND(0 <= i, i < n)), walk_pos(lb, exp_strand, i) == exp_pos),
+        conds = [lifted.strand is exp_strand, len(lifted) == n, total_len(lb) == n,
+                 OR(NOT(AND(0 <= i, i < n)), (walk_pos(lb, exp_strand, i) == exp_pos) if ordered else member(exp_pos, lb)),
                  lifted.parent is not None and lifted.parent.id == "sys%d" % upto and lifted.parent.sequence_type == "type%d" % upto]
         return AND(*conds)
 
@@ -105,6 +106,20 @@ def lift_pre(kc, shapes):
                 return False
             need = kw[pfx + "s0"] + tot + sum(kw[pfx + "g%d" % i] for i in range(1, k))
         return True
+
+    return pre
+
+
+def lift_ov_pre(kc, splace):
+    """child: kc non-overlapping blocks (0-bp gaps allowed); ONE placement level of two OVERLAPPING (not nested, distinct starts) blocks - a programmed
+    frameshift / ribosomal slippage style placement that duplicates some bases of the parent"""
+
+    def pre(**kw):
+        if not layout_pre(kc, kw, "c", min_len=1, min_gap=0):
+            return False
+        cend = kw["cs0"] + sum(kw["cl%d" % i] for i in range(kc)) + sum(kw["cg%d" % i] for i in range(1, kc))
+        l0, l1, g1 = kw["p0l0"], kw["p0l1"], kw["p0g1"]
+        return kw["p0s0"] >= 0 and l0 >= 2 and l1 >= 2 and -l0 < g1 and g1 < 0 and l1 + g1 > 0 and cend <= l0 + l1
 
     return pre
 
@@ -383,4 +398,19 @@ def obligations(tier):
         out.append(Obl("real_io_parser_constructors", real_parsers_fn(), dict(w=int), lambda w: w >= 0, budget=120, cost=5,
                        desc="io.parser.seq_chunk_to_parent / seq_to_parent build hierarchies through which lift-over gives chunk offsets and back",
                        bounds="chunk of length 12 at symbolic offset", examples=[dict(w=100)]))
+    # overlapping placements (outside the design's first bound): a child with non-overlapping blocks lifted through a placement that duplicates bases
+    for kc in (1, 2):
+        for sc in (PLUS, MINUS):
+            for sp in (PLUS, MINUS):
+                shapes = [(2, sp)]
+                ex = {"cs0": 4, "i": 7, "cl0": 6, "p0s0": 2, "p0l0": 10, "p0l1": 14, "p0g1": -2}
+                if kc == 2:
+                    ex.update(cl1=6, cg1=0)
+                out.append(Obl("lift_overlapping_placement_c%d%s_on_2%s" % (kc, sname(sc)[0], sname(sp)[0]), lift_fn(kc, sc, shapes, 1, "loc_parent", ordered=False),
+                               lift_params(kc, shapes), lift_ov_pre(kc, sp), budget=600, cost=60,
+                               desc="child (%d block(s)) lifted through a placement of two OVERLAPPING blocks: the lifted location has the child's length (bases the "
+                                    "placement duplicates stay duplicated) and covers the image of every child base under the composed point maps (block order "
+                                    "is the library's sorted normal form, cf. F12)" % kc,
+                               bounds="child %d block(s) (gaps >= 0), placement 2 overlapping blocks with distinct starts, unbounded symbolic coordinates" % kc,
+                               examples=[ex]))
     return out
